@@ -30,7 +30,12 @@ def gen_case(rng, tier):
 
 
 def impl_fn(case):
-    m = impl.build_uni(case)
+    if case["steps"][0] % 2 == 0:
+        # (no set_params after the max_time change: it would re-evaluate the distributions and hide a stale pmf)
+        m = impl.build_uni_via_other_max_time(case)
+    else:
+        m = impl.build_uni(case)
+        impl.prime_params(m, case, lambda mm: (mm.state_dist_evo(), mm.transition_matrix()))
     out = {"evo": m.state_dist_evo().tolist()}
     for key, fn in (("sd", lambda: m.state_dist(case["query_t"]).tolist()),
                     ("bn", lambda: m.state_dist(mode="BN").tolist()),
